@@ -330,6 +330,8 @@ func gen(g *hx.Gen) {
 		switch k := r.Intn(20); {
 		case k < 4:
 			b, _ := goodBlob(r, g)
+			g.Stat("clause.fingerprints-md5-sha256-vs-model")
+			g.Stat("clause.authorized-line-roundtrip")
 			g.Emit("pub blob=%s pts=%s", hx.Hex(b), ptsField(b))
 		case k < 8:
 			b := badBlob(r, g)
